@@ -5,6 +5,7 @@ CONSTANTS
  USizes <- RichU  VSizes <- RichV  Pads <- RichP  FlagSet <- RichF
  CommonU <- SmallU  CommonV <- SmallV
  FamStreams <- NoValues  FamBase = 3  FamGroups <- NoValues
+ ParkA <- NoValues  ParkB <- NoValues
  Volume = FALSE
  MinSteps = 12  MaxSteps = 12
 CONSTRAINT Emit
